@@ -59,6 +59,20 @@ def gen(tier, rng):
                     cases.append(rz.resize_case(pt, sw, sh, dw, dh, alg=alg, flt=flt, m=m, alpha=alpha, box=box, Q=Q, cpu=rz.pick(n, 101, rz.CPUS),
                                                 src_c={"g": "data", "v": content(pt, kinds[n % 4], sw, sh, rng)},
                                                 log=("src", "dst", "hooks", "imgs"), chk=("pipeline", "ret_ok")))
+    # sub-pixel shifts without a size change and every pass-planning combination (origin integer / fractional x extent equal / different)
+    Q = 4
+    for pt in rz.ALL_PT:
+        for (l, w_, dw) in ((Q, Q * 5, 5), (Q + 2, Q * 5, 5), (Q, Q * 6, 5), (Q + 1, Q * 5 + 3, 5)):
+            for (t, h_, dh) in ((Q, Q * 6, 6), (Q + 2, Q * 6, 6), (Q, Q * 7, 6), (Q + 3, Q * 6 + 1, 6)):
+                n += 1
+                if tier == "quick" and rz.pick(n, 311, [0, 1, 1]):
+                    continue
+                sw, sh = 9, 10
+                alg, m = rz.pick(n, 312, algs)
+                flt = rz.pick(n, 313, rz.BUILTIN)
+                cases.append(rz.resize_case(pt, sw, sh, dw, dh, alg=alg, flt=flt, m=m, alpha=False, box=(l, t, w_, h_), Q=Q, cpu=rz.pick(n, 314, rz.CPUS),
+                                            src_c={"g": "data", "v": content(pt, rz.pick(n, 315, kinds), sw, sh, rng)},
+                                            log=("src", "dst", "hooks", "imgs"), chk=("pipeline", "ret_ok")))
     return cases
 
 
